@@ -61,6 +61,9 @@ def atoms_of(cond: ast.AST, positive: bool = True) -> List[Atom]:
             if not positive:
                 op = _NEG[op]
             a, b = cond.left, cond.comparators[0]
+            # `<list / tuple / dict / set display> is not None` says nothing (a display is never None)
+            if op == "isnot" and isinstance(b, ast.Constant) and b.value is None and isinstance(a, (ast.List, ast.Tuple, ast.Dict, ast.Set, ast.ListComp, ast.DictComp, ast.SetComp)):
+                return []
             if op == ">=":
                 op, a, b = "<=", b, a
             elif op == ">":
